@@ -57,6 +57,33 @@ CHECKS.update({
    note=TB_Z + " Pickling a matrix raises PicklingError in this snapshot and is not decided."),
 })
 
+
+TB_C = ("Trusted: Coq 8.16.1 kernel (+vm_compute); the Python-ast translator harness/effects_translate.py (fail-closed; callee "
+        "resolution by name; operators, libmp primitives and user callbacks modelled as calls that never change the precision); "
+        "the fault-injection hook (MPMATH_VERIF=1) and harness/c11_dyn.py for dynamic validation. All theorems of coq_effects "
+        "are closed under the global context (no axioms).")
+TB_Q = ("Trusted: Coq 8.16.1 kernel + vm_compute on Bignums BigZ (Uint63 primitive-integer axioms of the standard library, "
+        "transported to the Z reference checker by QBig.bcheck_sound); the Python harness only generates instances and reads "
+        "raw tuples; exact Fraction elimination is an untrusted search whose results Coq re-checks; Interval/Coquelicot "
+        "(stdlib real axioms + classic) for the few transcendental instances.")
+CHECKS.update({
+ "C11": dict(level="proof", engine="C", technique="Coq-verified abstract interpreter of precision effects (soundness theorem, axiom-free) applied to command terms regenerated from the current sources by a fail-closed Python-ast translator; interprocedural summaries checked by Coq; fault-injection validation",
+   text="Every function that touches prec/dps is translated on every run into a small command language (save/set/add/sub, calls with summaries, raise/return/break/continue, try/finally, try/except, with, loops); a Gallina checker, proved sound for all executions (normal, returning and raising at any call boundary, calls inlined to any depth), certifies that each public entry point restores the precision; the setter/conversion formulas are proved in a pure-Z model incl. prec_dps_roundtrip for all d>=1. The abstraction is validated dynamically with injected faults and raising callbacks from non-dps-image precisions.",
+   note=TB_C + " Not covered: asynchronous exceptions between two assignments; generators that write the precision are checked dynamically only; mp and iv precision cells are conflated."),
+ "C30": dict(level="exploration", engine="Q", technique="per-instance exact-integer Coq certificates (vm_compute on BigZ, soundness transported to Z) of forward errors, factorization residuals, structure and elementwise identities; untrusted rational solutions re-checked by Coq",
+   text="Each sampled solve/inverse/det/factorization is decided exactly by Coq from the raw dyadic entries: forward error against the Coq-checked exact rational solution within cond_F(A)*2^(10-p), residuals of PA=LU, A=QR, A=LL^H, Q^HQ=I, exact structure tests, and exact equality of + - * ** T H and norms with the proved list model. The universal accuracy claim is not proved (certified oracle per instance).",
+   note=TB_Q + " cond is the Frobenius condition number from the exact inverse; 'moderate condition' = K*2^(10-p) <= 2^-8."),
+ "C31": dict(level="exploration", engine="Q", technique="per-instance exact-integer Coq certificates of eigen/Schur/Hessenberg/SVD residuals, orthonormality, ordering and Gauss quadrature moments",
+   text="Residuals ||AV - V diag(E)||, ||Q T Q^H - A||, orthonormality, realness of symmetric spectra, non-negative descending singular values with reconstruction, and exact polynomial moments of gauss_quadrature are decided exactly by Coq for every sampled matrix (real, complex, symmetric, Hermitian, triangular, diagonal, defective, repeated eigenvalues; all eig_sort orders).",
+   note=TB_Q + " Eigenvector residuals are relative to ||A||_F*||v||_2 (mpmath does not normalise); for hermite/chebyshev weights only moment ratios are certified."),
+ "C32": dict(level="exploration", engine="Q", technique="per-instance exact-integer Coq certificates of matrix-function identities; Interval certificates for expm(diag)",
+   text="expm(logm A)=A, sqrtm(A)^2=A, powm(A,k)=A^k, cosm^2+sinm^2=I are decided exactly by Coq from the returned dyadic matrices for both expm methods; expm(diag d) is certified against exp d_i with the Interval tactic.",
+   note=TB_Q + " Tolerance read as ||A||_F*2^(10-p)*||RHS||_F with ||A||_F>=1 and spectrum in the right half plane."),
+ "C35": dict(level="exploration", engine="Q", technique="per-instance exact-integer Coq certificates of the pslq/findpoly post-conditions; planted relations; identify strings certified through Interval",
+   text="Every vector pslq returns is checked by Coq to be a nonzero integer vector with max|c|<maxcoeff and (sum c x)^2 <= tol^2*sum x^2 on the exact dyadic inputs; planted relations must be found; findpoly degree/coefficients/residual exact; identify expressions are parsed into real terms and certified with Interval.",
+   note=TB_Q + " identify is certified as |x - value| <= 2^10*tol*max(1,|x|) (interpretation stated in the evidence)."),
+})
+
 NOT_APPLICABLE = {
 }
 
@@ -93,6 +120,10 @@ def main():
         "engines": [
             {"name": "A", "path": "/verif/coq (Algo, Spec, Proofs, Props) + /verif/extract + /verif/harness", "serves_properties": [p for p in CHECKS if CHECKS[p]["engine"] == "A"],
              "kind_free_text": "hand-written Gallina model of libmp with Coq theorems; extracted to OCaml and run against the live implementation (correspondence); constant tables regenerated from the code and re-checked by Coq each run"},
+            {"name": "C", "path": "/verif/coq_effects + harness/effects_translate.py + harness/c11_dyn.py", "serves_properties": [p for p in CHECKS if CHECKS[p]["engine"] == "C"],
+             "kind_free_text": "verified abstract interpreter for precision effects; command terms regenerated from the sources by a translator on every run"},
+            {"name": "Q", "path": "/verif/coq_qcheck + harness/qcert.py qlin.py qprops.py", "serves_properties": [p for p in CHECKS if CHECKS[p]["engine"] == "Q"],
+             "kind_free_text": "per-instance exact-integer certificates decided by Coq (BigZ vm_compute with a soundness transport to Z)"},
         ],
         "checks": checks,
         "not_applicable": na,
